@@ -61,3 +61,49 @@ def Pool.disciplined (calls : List (String × Bool × String × Nat × Nat)) : B
 def Pool.inUse (p : Pool) : List Nat := p.held.map (·.2)
 
 end DV
+
+namespace DV
+
+/-!
+  Capacities. `MessageBufferLength` is an exported variable: the application may change it while
+  buffers made under an earlier value sit in the pool. A call asks for `min` bytes:
+  `newWriterBuffer(min)` makes an exact buffer when `min` exceeds the current length, otherwise takes
+  a pooled one - if it is big enough (parameter `checksCap`; the source checks since 2ad7047, the
+  reader side, `readerBufferSlice`, always did) - or makes one of the current length. A buffer goes
+  back to the pool only if its capacity is the current length.
+-/
+structure CapPool where
+  len : Nat                  -- MessageBufferLength now
+  free : List Nat := []      -- capacities of the pooled buffers
+deriving Repr, DecidableEq
+
+inductive CapEv where
+  | setLen (n : Nat)         -- the application assigns MessageBufferLength
+  | use (min : Nat)          -- one call: acquire for `min` bytes, use, put back
+deriving Repr, DecidableEq
+
+/-- the capacity of the buffer a call asking for `min` bytes is given, and the pool afterwards -/
+def CapPool.acquire (checksCap : Bool) (p : CapPool) (min : Nat) : Nat × CapPool :=
+  if min > p.len then (min, p)
+  else match p.free with
+    | c :: rest => if checksCap ∧ c < min then (p.len, { p with free := rest }) else (c, { p with free := rest })
+    | [] => (p.len, p)
+
+def CapPool.put (p : CapPool) (c : Nat) : CapPool :=
+  if c = p.len then { p with free := c :: p.free } else p
+
+/-- one event; the Bool says whether the buffer handed out (if any) could hold what was asked for -/
+def CapPool.step (checksCap : Bool) (p : CapPool) : CapEv → CapPool × Bool
+  | .setLen n => ({ p with len := n }, true)
+  | .use min =>
+    let (c, p') := p.acquire checksCap min
+    (p'.put c, decide (min ≤ c))
+
+def CapPool.run (checksCap : Bool) : CapPool → List CapEv → CapPool × Bool
+  | p, [] => (p, true)
+  | p, e :: es =>
+    let (p', ok) := p.step checksCap e
+    let (p'', ok') := CapPool.run checksCap p' es
+    (p'', ok && ok')
+
+end DV
